@@ -62,7 +62,7 @@ CLAIMS = {
   note="Assumes non-negative counts at the call sites (stated as preconditions). Assumes the abstract transaction model (ghost write counter, uninterpreted count/next-UID functions). Undecided: AppendRegular (check on a read-only client outside the inserting transaction), Rename, connector-side creation, all-or-nothing via wrapTx, concurrency.",
   ref="DESIGN.md §4 C17"),
  "C07": dict(
-  text="Deductive proof of the transaction wrapper every database write goes through (sqlite3 Client.wrapTx): for every operation and every failing step, a nil result means exactly one successful commit and no rollback, an error result means nothing was committed, every transaction begun is ended exactly once and at most one is begun. This is the 'before or after, never half' clause for the database part of every operation; Also proved: the three state actions that create a message row (actionCreateMessage, actionCreateRecoveredMessage, actionImportRecoveredMessage) hand the database only an id whose literal was written to the store earlier in the same call (abstract store model: a successful Set adds the id and keeps the others), so an error or crash between the two leaves at most an unreferenced file, never a listed message without bytes; getLiteral, when it has to download a literal again, puts into the cache exactly the slice it returns (at most one store write).",
+  text="Deductive proof of the transaction wrapper every database write goes through (sqlite3 Client.wrapTx): for every operation and every failing step, a nil result means exactly one successful commit and no rollback, an error result means nothing was committed, every transaction begun is ended exactly once and at most one is begun. This is the 'before or after, never half' clause for the database part of every operation; Also proved: the three state actions that create a message row (actionCreateMessage, actionCreateRecoveredMessage, actionImportRecoveredMessage) hand the database only an id whose literal was written to the store earlier in the same call (abstract store model: a successful Set adds the id and keeps the others), so an error or crash between the two leaves at most an unreferenced file, never a listed message without bytes; getLiteral, when it has to download a literal again, puts into the cache exactly the slice it returns (at most one store write). At start-up (newUser) the purge of messages marked for deletion runs before the sweep that removes cache files without a row.",
   note="Assumes the database/sql model in contracts/deps/sql.spec (BeginTx/Commit/Rollback counters; SQLite makes a commit atomic and durable), op does not commit/roll back itself, the recover()/re-panic path is not modelled. The store model is assumed (membership only, no bytes). NOT decided (no contract within reach): process death at arbitrary points, WAL recovery, the connector-driven creation path (parallel store writes in closures), deletion order, clean-up of left-overs on restart, message bytes on disk.",
   ref="DESIGN.md §4 C07"),
  "C14": dict(
